@@ -139,7 +139,8 @@ SPECS["C11"] = {
     "engine": "rapidcheck + complete enumeration of floats",
     "technique": "property-based testing (rapidcheck) with a round-trip oracle (bit identity after format(17)/parse); exhaustive float sweep",
     "level_text": ("Bit identity of StringToNumber(NumberToString(d,17)) for generated finite doubles (and 9 digits for floats); thorough enumerates "
-                   "every finite float and a regular lattice of doubles. Sampling for doubles."),
+                   "every finite float and a regular lattice of doubles. Sampling for doubles; short decimals m x 10^k at every exponent and the "
+                   "least-slack binades are enumerated."),
     "level_note": "no external reference needed (round trip); plain -O2 build for the sweeps",
     "assumptions": [],
 }
@@ -238,7 +239,9 @@ SPECS["C07"] = {
     "engine": "rapidcheck",
     "technique": "property-based testing (rapidcheck) with an inner exhaustive enumeration of every cut point / bracket damage per generated document",
     "level_text": ("Every proper prefix, trailing-garbage variant and bracket-damaged variant of generated valid documents must yield Undefined; the undamaged "
-                   "document must be accepted (non-vacuity). Per document the variants are enumerated completely; documents are sampled."),
+                   "document must be accepted (non-vacuity). Per document the variants are enumerated completely; documents are sampled. "
+                   "Strings of the document as whole texts, damaged / cut-short \\u escapes and lone surrogate halves in front of invalidating text are further "
+                   "variant classes; texts nested 250..2000 levels are enumerated (prefixes, trailing units, malformed cores)."),
     "level_note": "relies on the C06 generator producing valid documents (validated there by the strict reference parser)",
     "assumptions": [],
 }
